@@ -142,6 +142,11 @@ class Ctx:
         self.sb = e1.Sandbox(os.path.join(base, 'sb'))
         self.sk = e1.SimKernel(paths['engines']['simkernel'])
         self._e2 = None
+        self.deadline = None
+
+    def expired(self):
+        """True once the batch's wall-clock cap has passed: long inner enumerations stop early."""
+        return self.deadline is not None and time.time() > self.deadline
 
     @property
     def e2(self):
@@ -162,12 +167,13 @@ class Ctx:
 _W = {}
 
 
-def _worker_init(check_mod, tier, paths, base_root):
+def _worker_init(check_mod, tier, paths, base_root, deadline=None):
     mod = importlib.import_module(check_mod)
     check = mod.CHECK
     base = os.path.join(base_root, 'w%d' % os.getpid())
     os.makedirs(base, exist_ok=True)
     _W['ctx'] = Ctx(check, tier, paths, base)
+    _W['ctx'].deadline = deadline
     _W['check'] = check
 
 
@@ -270,7 +276,8 @@ def run_check(check_mod, tier, seed, replay=None, max_cases=None, workers=None, 
     os.makedirs(base_root, exist_ok=True)
     nworkers = workers or int(os.environ.get('VERIF_WORKERS', '16'))
     ctxm = multiprocessing.get_context('fork')
-    pool = ctxm.Pool(nworkers, _worker_init, (check_mod, tier, paths, base_root))
+    deadline = None if replay else t_start + (time_cap or check.time_cap(tier))
+    pool = ctxm.Pool(nworkers, _worker_init, (check_mod, tier, paths, base_root, deadline))
     try:
         if replay:
             return _do_replay(check, pool, replay)
@@ -444,6 +451,9 @@ def _do_run(check, check_mod, pool, tier, seed, t_start, max_cases, nworkers, ti
             new_violations.append((key, rpath, vmin, len(groups[key])))
 
     wall = time.time() - t_start
+    if os.environ.get('VERIF_DIGEST'):
+        # one line that must not depend on worker count, scheduling or PYTHONHASHSEED
+        print('RUN-DIGEST %s' % digest([outcome_digest(results[i]) for i in order]))
     # -------- evidence
     total_runs = agg.runs + agg.ref_runs
     ev = {
